@@ -428,4 +428,65 @@ theorem smallk_bin_uiui_eq (n k : ℕ) (hk2 : 2 ≤ k) (hk25 : k ≤ ODD_FACTORI
   exact henselRshDiv_exact rp _ (oddfacTab k) (facinvTab (k - 2)) _ (n.choose k) (lt_pow_limbCount rp) t2 t3
     (shiftRight_of_mul_two_pow hloop hi2)
 
+/-! ## mpz_smallkdc_bin_uiui -/
+
+theorem bc_bin_uiui_binom : ∀ n < ODD_FACTORIAL_EXTTABLE_LIMIT + 1, ∀ k < n + 1, 2 ≤ k → 2 ≤ n - k →
+    bc_bin_uiui n k = binom n k := by
+  decide +kernel
+
+theorem smallkdc_tables : ∀ k < 2 * ODD_CENTRAL_BINOMIAL_TABLE_LIMIT + 1, ODD_FACTORIAL_TABLE_LIMIT < k →
+    binom k (k / 2) = 2 ^ (fac2binTable.getD (k - k / 2 - ODD_CENTRAL_BINOMIAL_OFFSET) 0 - (if k - k / 2 ≠ k / 2 then 1 else 0)) *
+        bin2kkTable.getD (k - k / 2 - ODD_CENTRAL_BINOMIAL_OFFSET) 0 ∧
+      bin2kkTable.getD (k - k / 2 - ODD_CENTRAL_BINOMIAL_OFFSET) 0 < B ∧
+      bin2kkTable.getD (k - k / 2 - ODD_CENTRAL_BINOMIAL_OFFSET) 0 * bin2kkinvTable.getD (k - k / 2 - ODD_CENTRAL_BINOMIAL_OFFSET) 0 % B = 1 := by
+  decide +kernel
+
+theorem smallkdc_consts : ODD_FACTORIAL_TABLE_LIMIT = 25 ∧ ODD_CENTRAL_BINOMIAL_TABLE_LIMIT = 35 ∧ ODD_FACTORIAL_EXTTABLE_LIMIT = 67 ∧
+    BIN_UIUI_RECURSIVE_SMALLDC = 1 := by decide
+
+/-- **mpz_smallkdc_bin_uiui (n, k) = binomial (n, k)** for ODD_FACTORIAL_TABLE_LIMIT < k ≤ 2·ODD_CENTRAL_BINOMIAL_TABLE_LIMIT,
+    2k ≤ n < 2^64 (fuel = recursion depth allowance: k ≤ 25·2^fuel) -/
+theorem smallkdc_bin_uiui_eq : ∀ fuel n k, ODD_FACTORIAL_TABLE_LIMIT < k → k ≤ 2 * ODD_CENTRAL_BINOMIAL_TABLE_LIMIT →
+    k ≤ 25 * 2 ^ fuel → 2 * k ≤ n → n < B → smallkdc_bin_uiui fuel n k = n.choose k := by
+  obtain ⟨c1, c2, c3, c4⟩ := smallkdc_consts
+  intro fuel
+  induction fuel with
+  | zero => intro n k h1 _ h3 _ _; rw [c1] at h1; omega
+  | succ fuel ih =>
+    intro n k h1 h2 h3 h4 hn
+    have hrec : ∀ n' k', 13 ≤ k' → 2 * k' ≤ k + 1 → k' ≤ n' → (ODD_FACTORIAL_TABLE_LIMIT < k' → 2 * k' ≤ n') → n' < B →
+        (if BIN_UIUI_RECURSIVE_SMALLDC = 0 ∨ k' ≤ ODD_FACTORIAL_TABLE_LIMIT then smallk_bin_uiui n' k'
+          else smallkdc_bin_uiui fuel n' k') = n'.choose k' := by
+      intro n' k' g1 g2 g3 g4 g5
+      rw [c4]
+      by_cases hk' : k' ≤ ODD_FACTORIAL_TABLE_LIMIT
+      · simp only [hk', or_true, if_true]
+        exact smallk_bin_uiui_eq n' k' (by omega) hk' g3 g5
+      · simp only [hk', Nat.one_ne_zero, or_false, if_false]
+        rw [c1] at hk'
+        exact ih n' k' (by rw [c1]; omega) (by rw [c2] at h2 ⊢; omega) (by rw [pow_succ] at h3; omega) (g4 (by rw [c1]; omega)) g5
+    have htab := smallkdc_tables k (by omega) h1
+    rw [c1] at h1
+    rw [c2] at h2
+    unfold smallkdc_bin_uiui
+    simp only
+    rw [hrec n (k / 2) (by omega) (by omega) (by omega) (by omega) hn]
+    have hsecond : (if n - k / 2 ≤ ODD_FACTORIAL_EXTTABLE_LIMIT then n.choose (k / 2) * bc_bin_uiui (n - k / 2) (k - k / 2)
+        else n.choose (k / 2) * (if BIN_UIUI_RECURSIVE_SMALLDC = 0 ∨ k - k / 2 ≤ ODD_FACTORIAL_TABLE_LIMIT then
+          smallk_bin_uiui (n - k / 2) (k - k / 2) else smallkdc_bin_uiui fuel (n - k / 2) (k - k / 2))) =
+        n.choose k * k.choose (k / 2) := by
+      rw [Nat.choose_mul (Nat.div_le_self k 2)]
+      split
+      · rename_i hle
+        rw [bc_bin_uiui_binom (n - k / 2) (by omega) (k - k / 2) (by omega) (by omega) (by omega), binom_eq_choose]
+      · rw [hrec (n - k / 2) (k - k / 2) (by omega) (by omega) (by omega) (by omega) (by omega)]
+    rw [hsecond]
+    obtain ⟨t1, t2, t3⟩ := htab
+    rw [binom_eq_choose] at t1
+    refine henselRshDiv_exact _ _ _ _ _ (n.choose k) (lt_pow_limbCount _) t2 t3 ?_
+    have := @shiftRight_of_mul_two_pow (n.choose k * k.choose (k / 2)) 0
+      (fac2binTable.getD (k - k / 2 - ODD_CENTRAL_BINOMIAL_OFFSET) 0 - (if k - k / 2 ≠ k / 2 then 1 else 0))
+      (bin2kkTable.getD (k - k / 2 - ODD_CENTRAL_BINOMIAL_OFFSET) 0 * n.choose k) (by rw [t1]; ring) (Nat.zero_le _)
+    simpa using this
+
 end Mpir.Numth
